@@ -1062,8 +1062,8 @@ func main() {
 		return
 	}
 	g := r.Rng
-	nTrees := r.N(60, 600)
-	loopBudget := r.N(25, 250)
+	nTrees := r.N(40, 500)
+	loopBudget := r.N(15, 200)
 	for i := 0; i < nTrees; i++ {
 		blob := 0
 		wellFormed := g.Chance(85)
